@@ -14,6 +14,7 @@ func init() {
 			c.run("C19-R1", "GUARD-DOM: header detection with cancel / cannot-open veto", c19R1)
 			c.run("C19-R2", "MUST-PASS: whoever stops the session arms its end", c19R2)
 			c.run("C19-R3", "MUST-PASS: errors and helper exit cancel the server side", c19R3)
+			c.run("C19-R6", "MUST-PASS: a finished session stops reading the helper, makes it exit, and the exit watcher always arms the cleanup", c19Stream)
 			c.run("C19-R4", "SIBLING: decline condition and input gate agree", c19R4)
 			c.run("C19-R5", "WHO-WRITES: the 'cleaned' flag", c19R5)
 		})
@@ -248,6 +249,51 @@ func c19R3(c *Ctx) {
 		}
 		c.check(good, "handleZmodemEvent/chooser-error=>error-path", c.ipos(ci), "a failed/cancelled chooser leads to the error path", "a chooser error is not reported through the error path")
 	}
+}
+
+// c19Stream: once the session is over (error, or both sides finished) the helper's output loop ends,
+// so the helper is made to exit and the exit watcher arms the cleanup.
+func c19Stream(c *Ctx) {
+	f := c.fn("zmodemTransfer.handleZmodemStream")
+	var read *ssa.Call
+	eachInstr(f, func(in ssa.Instruction) {
+		if call, ok := in.(*ssa.Call); ok && call.Call.IsInvoke() && call.Call.Method.Name() == "Read" {
+			read = call
+		}
+	})
+	if read == nil {
+		c.lost("stdout.Read in handleZmodemStream")
+	}
+	n := 0
+	for _, b := range f.Blocks {
+		i := blockIf(b)
+		if i == nil {
+			continue
+		}
+		call, _ := callOf(i.Cond)
+		if call == nil || !(isAtomicOnField(call, "errorOccurred", "Load") || isAtomicOnField(call, "clientFinished", "Load")) {
+			continue
+		}
+		n++
+		hit, path := reachFrom(b.Succs[0], 0, func(x ssa.Instruction) bool { return x == ssa.Instruction(read) }, nil)
+		c.check(hit == nil, "handleZmodemStream/over=>leave-loop", c.ipos(i), "when the session is over the output loop ends (the helper is then made to exit)", "the helper's output keeps being read after the session is over: a helper that keeps talking is never killed and the terminal is never handed back", c.pathStr(path)...)
+	}
+	if n < 2 {
+		c.undecided("handleZmodemStream/over-tests", "the session-over tests were not found")
+	}
+	// leaving the loop leads to ensureClientExit on every path
+	hit, path := reachFrom(f.Blocks[0], 0, isReturn, func(x ssa.Instruction) bool {
+		ci, ok := x.(ssa.CallInstruction)
+		return ok && calleeID(ci.Common()) == "(*trzsz.zmodemTransfer).ensureClientExit"
+	})
+	c.check(hit == nil, "handleZmodemStream/exit=>kill-helper", c.pos(f.Pos()), "every way out of the stream handler makes sure the helper exits", "a way out of the stream handler leaves the helper running", c.pathStr(path)...)
+	// the exit watcher arms the timer unconditionally
+	w := c.fn("zmodemTransfer.checkClientExited")
+	hit, path = reachFrom(w.Blocks[0], 0, isReturn, func(x ssa.Instruction) bool {
+		ci, ok := x.(ssa.CallInstruction)
+		return ok && calleeID(ci.Common()) == "(*trzsz.zmodemTransfer).resetCleanupTimer"
+	})
+	c.check(hit == nil, "checkClientExited/always-arms", c.pos(w.Pos()), "the exit watcher arms the cleanup timer on every path", "the exit watcher can return without arming the cleanup timer (e.g. when 'stopped' was already set by Ctrl-C): with a quiet server the session never ends", c.pathStr(path)...)
 }
 
 func c19R4(c *Ctx) {
